@@ -31,6 +31,16 @@ Theorem C11_equal_handles_equal_keys_unless_md5_coincidence :
     exists b1 b2, key_bytes t d1 = Ok b1 /\ key_bytes t d2 = Ok b2 /\ md5_coincidence b1 b2.
 Proof. exact key_eq_of_handle_eq. Qed.
 
+(* the two directions together: barring an MD5 coincidence of the two serialized keys,
+   same handle <-> same key members (outside the collision class) *)
+Theorem C11_same_handle_iff_same_key :
+  forall t d1 d2,
+    key_type_ok t = true -> key_ids_unique t = true ->
+    key_ok t d1 = true -> key_ok t d2 = true ->
+    ~ (exists b1 b2, key_bytes t d1 = Ok b1 /\ key_bytes t d2 = Ok b2 /\ md5_coincidence b1 b2) ->
+    (instance_handle t d1 = instance_handle t d2 <-> key_vals_ty t d1 = key_vals_ty t d2).
+Proof. exact same_handle_iff_same_key. Qed.
+
 (* every well-formed key is assigned a 16-byte handle *)
 Theorem C11_wellformed_key_gets_a_handle :
   forall t d, key_type_ok t = true -> key_ids_unique t = true -> key_ok t d = true ->
@@ -101,6 +111,7 @@ Proof. repeat (match goal with |- _ /\ _ => split end); vm_compute; reflexivity.
 
 Print Assumptions C11_equal_keys_equal_handles.
 Print Assumptions C11_equal_handles_equal_keys_unless_md5_coincidence.
+Print Assumptions C11_same_handle_iff_same_key.
 Print Assumptions C11_wellformed_key_gets_a_handle.
 Print Assumptions C11_id_collision_class_refutes_equal_handles_equal_keys.
 Print Assumptions C11_reader_derivation_from_key_equals_writer_handle.
